@@ -120,6 +120,7 @@ def h_parse(p0: bool, p1: bool, p2: bool, v0: str, v1: str, v2: str) -> bool:
 
 # ---------------------------------------------------------------------------------------------------------
 FILES = {"a": b"A", "d/b": b"BB", "d/e/c": b"", "d/e/g": b"GGG"}
+SIBLINGS = {"d2/h": b"H", "d.bak": b"K"}  # names that extend the name of directory `d`: they are not inside it
 
 
 class _PermExecutor:
@@ -216,6 +217,7 @@ def h_subtree(p0: bool, p1: bool, p2: bool, p3: bool) -> bool:
             cache = env.local_odb("cache")
             src = env.p("src")
             files = {k: v for (k, v), p in zip(FILES.items(), present) if p}
+            files.update(SIBLINGS)
             for k, v in files.items():
                 env.write(src + "/" + k, v)
         try:
